@@ -47,7 +47,7 @@ func (p *pool) Acquire(ctx context.Context) (v wire) {
 	var cancel context.CancelCauseFunc
 
 retry:
-	for len(p.list) == 0 && p.size == p.cap && !p.down && ctx.Err() == nil {
+	for len(p.list) == 0 && p.size >= p.cap && !p.down && ctx.Err() == nil {
 		// Set up ctx handling when waiting for an available connection
 		if cancel == nil && ctx.Done() != nil {
 			var poolCtx context.Context
@@ -73,6 +73,7 @@ retry:
 		deadPipe := deadFn()
 		deadPipe.error.Store(&errs{error: ctx.Err()})
 		v = deadPipe
+		p.size++ // the caller stores it like any other wire, and Store decrements for a wire with an error
 		p.cond.L.Unlock()
 		return v
 	}
